@@ -8,6 +8,7 @@
 (* "lcm's array pipeline = this specification" is proved for the pipeline's components         *)
 (* (C14, C15, C17, C18, C19) and composed in Properties/C01 only as far as stated below;       *)
 (* the full statement is kept as C01_full_statement.                                           *)
+From LCM Require Import Base.ArrOps Model.Dispatchers Model.QOps Proofs.C11_ModelFunctions.
 From LCM Require Import Base.Prelude Base.Arr Spec.Lang Spec.Bellman Spec.Layout.
 From LCM Require Import Proofs.ArrLemmas2 Proofs.Spec_Bellman Gen.SolveBrute Proofs.C05_SolveLoop Gen.EntryPoint Proofs.C01_EntryPoint.
 Local Open Scope nat_scope.
@@ -154,3 +155,28 @@ Theorem C01_glue_fixed_arguments :
   = ["random_utility_shock_type=_mod.random_utility_shocks"; "variable_info=_mod.variable_info"]%string.
 Proof. repeat split; reflexivity. Qed.
 Print Assumptions C01_glue_fixed_arguments.
+
+(* ---- bridge: the code's expectation formula and the specification's continuation value ---------- *)
+From LCM Require Import Proofs.C11_Affine Proofs.C01_Bridge.
+(* The sum that the regenerated Bellman operator computes (C11_code_one_discounting_step: over the    *)
+(* node grid, value x product of the variables' weights) IS the specification's continuation value,    *)
+(* and utility + beta * that sum IS the specification's objective -- provided the two hand-modelled     *)
+(* components deliver what their own properties say: the weight arrays hold the transition rows the     *)
+(* specification selects (C07/C03), and the product-mapped function representation holds the            *)
+(* specification's reads of V_{t+1} at the nodes (C14).                                                 *)
+Theorem C01_code_expectation_is_the_specifications_continuation :
+  forall (m : model) (p : params) (e : env) (vnext : list nat -> val) (rows : list (list Q)) (ccvs : qarr) (ws : list qarr),
+  omap (fun sg : string * grid => weight_row m p e (fst sg)) (stoch_states m) = Some rows ->
+  (length ws = length rows /\
+   forall i k, (i < length rows)%nat -> qget (nth i ws dflt_arr) [k] = nth k (nth i rows []) 0%Q) ->
+  (forall idx, in_bounds (map (fun sg : string * grid => grid_size (snd sg)) (stoch_states m)) idx ->
+     node_value m p vnext e (node_labels (stoch_states m) idx) = VFin (qget ccvs idx)) ->
+  forall u, eval_fun (depth m) m p e "utility" = Some u ->
+  exists v, objective m p false vnext e = VFin v /\
+            (v == u + beta p *
+                 C11_ModelFunctions.qsum
+                   (map (fun idx => qget ccvs idx *
+                                    qprod_list (map (fun i => qget (nth i ws dflt_arr) [nth i idx 0%nat]) (seq 0 (length rows))))
+                        (indices (map (fun sg : string * grid => grid_size (snd sg)) (stoch_states m)))))%Q.
+Proof. intros m p e vnext rows ccvs ws H1 H2 H3 u Hu. exact (spec_objective_from_code_sum m p e vnext rows H1 ccvs ws H2 H3 u Hu). Qed.
+Print Assumptions C01_code_expectation_is_the_specifications_continuation.
